@@ -22,7 +22,22 @@ import os
 import re
 from collections import Counter
 
-from vlib import read_jsonl, canon_hash
+from vlib import canon_hash
+
+
+def read_jsonl(path):
+    """tolerant reader: a harness that was killed leaves a truncated last line"""
+    out = []
+    if not os.path.exists(path):
+        return out
+    for line in open(path, errors="replace"):
+        line = line.strip()
+        if line:
+            try:
+                out.append(json.loads(line))
+            except ValueError:
+                break
+    return out
 
 I64_MAX, I64_MIN = 2 ** 63 - 1, -2 ** 63
 U32_MAX = 2 ** 32 - 1
